@@ -311,3 +311,24 @@ class CallGraph(object):
 
     def callers(self, f):
         return self.into.get(f, [])
+
+
+def never_referenced(repo, fi):
+    """A private function whose name occurs nowhere in the analysed tree except in its own ``def``: nothing can call
+    it (what is left of a helper after the front-end dissolved it into its callers)."""
+    name = fi.name
+    if not name.startswith('_') or (name.startswith('__') and name.endswith('__')):
+        return False
+    for m in repo.all_internal_modules():
+        for n in ast.walk(m.tree):
+            if isinstance(n, ast.Name) and n.id == name:
+                return False
+            if isinstance(n, ast.Attribute) and n.attr == name:
+                return False
+            if isinstance(n, ast.Constant) and isinstance(n.value, str) and name in n.value:
+                return False
+            if isinstance(n, ast.alias) and name in (n.name, n.asname):
+                return False
+            if isinstance(n, ast.keyword) and n.arg == name:
+                return False
+    return True
